@@ -89,6 +89,25 @@ pub fn variants(tier: Tier) -> Vec<WorldSpec> {
     s.matrix.cells[0][1] = 32767;
     s.matrix.cells[4][0] = 32767;
     v.push(s);
+    // every path has to cross a cell at the upper limit: the sentence-start row ...
+    let mut s = cost_spec("W-cost-bos-row-max");
+    for r in 0..6 {
+        s.matrix.cells[0][r] = 32767;
+    }
+    v.push(s);
+    // ... the sentence-end column ...
+    let mut s = cost_spec("W-cost-eos-column-max");
+    for l in 1..6 {
+        s.matrix.cells[l][0] = 32767;
+    }
+    v.push(s);
+    // ... or any cell at all except a few
+    let mut s = cost_spec("W-cost-most-cells-max");
+    s.matrix = Matrix::generate(6, 6, |l, r| if (l + 2 * r) % 5 == 0 { (l * 6 + r) as i32 } else { 32767 });
+    v.push(s);
+    let mut s = cost_spec("W-cost-most-cells-min");
+    s.matrix = Matrix::generate(6, 6, |l, r| if (l + 2 * r) % 5 == 1 { (l * 6 + r) as i32 } else { -32768 });
+    v.push(s);
     let mut s = cost_spec("W-cost-cell-min");
     s.matrix.cells[3][2] = -32768;
     s.matrix.cells[1][0] = -32768;
@@ -413,11 +432,11 @@ pub fn main(tier: Tier, replay: Option<String>) -> i32 {
     let mut jobs: Vec<Box<dyn AnyJob>> = Vec::new();
     for spec in variants(tier) {
         let w = Arc::new(World::build(spec).unwrap_or_else(|e| panic!("cost world: {}", e)));
-        let bounds = TreeBounds::full(tier.pick(9, 12));
+        let bounds = TreeBounds::full(tier.pick(9, 11));
         let b = json!({"tree": bounds.to_json(), "brute_force_len": tier.pick(5, 6)});
         jobs.push(job(
             CostSpace { world: w, alpha: syms(&["あ", "い", "う"], &[]), bounds, brute_force_len: tier.pick(5, 6) },
-            Strategy::Dfs,
+            Strategy::Bfs,
             Some(tier.pick(30, 1500)),
             b,
         ));
